@@ -342,6 +342,24 @@ Definition chk_C13 (n : netlist) : fails :=
    else guard (opt_str_eqb (cfg_get n "NumRoutes") (Some "0")) "cfg-num-routes" "RouteCfg.NumRoutes is not 0") ++
   flat_map (c13_router n) (n_rts n).
 
+(* names: (member of sam_idx_e, (start, end)) as the description implies -- the rule at the index the member denotes
+   (Sam[N-1:0] lists index N-1 first) has exactly these bounds: entry k is the rule the enumeration names k *)
+Definition sam_at (n : netlist) (k : Z) : option sam_rule :=
+  let cnt := Z.of_nat (length (n_sam n)) in
+  if (k <? 0) || (cnt <=? k) then None else nth_error (n_sam n) (Z.to_nat (cnt - 1 - k)).
+Definition c13_named (n : netlist) (e : string * (Z * Z)) : fails :=
+  match enum_value (n_sam_enum n) (fst e) with
+  | None => one "sam-name-missing" ("sam_idx_e has no member " +++ fst e)
+  | Some k =>
+      match sam_at n k with
+      | Some r => guard ((sr_start r =? fst (snd e)) && (sr_end r =? snd (snd e))) "sam-name-index"
+                        (fst e +++ " = " +++ ZS k +++ ", but Sam[" +++ ZS k +++ "] is the rule [" +++ ZS (sr_start r) +++ ","
+                         +++ ZS (sr_end r) +++ "), not the declared range [" +++ ZS (fst (snd e)) +++ "," +++ ZS (snd (snd e)) +++ ")")
+      | None => one "sam-name-index" (fst e +++ " = " +++ ZS k +++ " is not an index of Sam")
+      end
+  end.
+Definition chk_C13n (n : netlist) (exp : list (string * (Z * Z))) : fails := chk_C13 n ++ flat_map (c13_named n) exp.
+
 (* ---------------------------------------------------------------- C09: channel dependencies *)
 Fixpoint consecutive {T} (l : list T) : list (T * T) :=
   match l with
